@@ -36,7 +36,6 @@ use mwv_core::choice::{fnv, unhex, Choices};
 use mwv_core::readergen as rg;
 use serde_json::{json, Value};
 use std::cell::RefCell;
-use std::os::unix::fs::FileExt;
 
 pub struct C06;
 
@@ -48,8 +47,11 @@ const CANARY_BUDGET: usize = 20_000;
 const VM_REUSE: u32 = 500;
 const AS_LIMIT_BYTES: u64 = 4 << 30;
 const CHILD_HEADROOM_BYTES: u64 = 384 << 20;
-const CHILD_ALARM_S: u32 = 2;
-const JOURNAL_RECORD_BYTES: usize = 1536;
+/// CPU seconds a forked probe may burn before it counts as not returning (CPU time, not wall
+/// time: a starved child on a busy machine is not a hang); the wall-clock alarm is a backstop.
+const CHILD_CPU_S: u64 = 2;
+const CHILD_ALARM_S: u32 = 60;
+const JOURNAL_RECORD_BYTES: usize = 4096;
 
 // ---------------------------------------------------------------------------------------------
 // Vm management
@@ -80,12 +82,7 @@ fn fresh_slot() -> Result<Slot, String> {
             other => return Err(format!("setup form {} failed: {:?}", form, other.map(|r| r.map(|_| ())))),
         }
     }
-    let canary = vec![
-        parse_one("(car (cdr '(1 2)))"),
-        parse_one("((lambda (x) (+ x 1)) 41)"),
-        parse_one("(define c06-canary 7)"),
-        parse_one("c06-canary"),
-    ];
+    let canary = vec![parse_one("c06-canary")];
     Ok(Slot { vm, used: 0, canary })
 }
 
@@ -152,15 +149,29 @@ fn canary(slot: &mut Slot, strong: bool) -> Result<(), Bad> {
             other => Err(Bad { kind: "canary", detail: format!("afterwards the constant 42 does not evaluate to 42: {:?}", other.map(|r| r.map(|c| c.map(|c| format!("{:#}", c))))) }),
         };
     }
-    let expect: [&dyn Fn(&Cell) -> bool; 4] =
-        [&|c| is_fix(c, 2), &|c| is_fix(c, 42), &|c| matches!(c, Cell::Void), &|c| is_fix(c, 7)];
-    for (i, form) in slot.canary.iter().enumerate() {
+    // (car (cdr '(1 2))) => 2, a closure call, a define and a reference, in two evaluations; the
+    // defined value changes from case to case, so a stale binding cannot pass
+    let n = (slot.used % 1000) as i64;
+    let def = Cell::new_list(vec![
+        Cell::new_symbol("define"),
+        Cell::new_symbol("c06-canary"),
+        Cell::new_list(vec![
+            parse_cached("(lambda (x) (+ x (car (cdr '(1 2)))))"),
+            Cell::Number(Number::Fixnum(n)),
+        ]),
+    ]);
+    let forms = [def, slot.canary[0].clone()];
+    for (i, form) in forms.iter().enumerate() {
         let vm = &mut slot.vm;
         let r = guard(|| {
             vm.prepare_eval(form)?;
             vm.run_count(CANARY_BUDGET)
         });
-        let what = ["(car (cdr '(1 2)))", "((lambda (x) (+ x 1)) 41)", "(define c06-canary 7)", "c06-canary"][i];
+        let what = if i == 0 {
+            format!("(define c06-canary ((lambda (x) (+ x (car (cdr '(1 2))))) {}))", n)
+        } else {
+            "c06-canary".to_string()
+        };
         match r {
             Err(p) => return Err(Bad { kind: "canary", detail: format!("afterwards {} panics: {}", what, p) }),
             Ok(Err(e)) => {
@@ -171,14 +182,29 @@ fn canary(slot: &mut Slot, strong: bool) -> Result<(), Bad> {
                 return Err(Bad { kind: "canary", detail: format!("afterwards {} does not finish in {} instructions", what, CANARY_BUDGET) })
             }
             Ok(Ok(Some(c))) => {
-                if !expect[i](&c) {
+                let ok = if i == 0 { matches!(c, Cell::Void) } else { is_fix(&c, n + 2) };
+                if !ok {
                     let t = guard(|| format!("{:#}", c)).unwrap_or_else(|p| format!("<unrenderable: {}>", p));
-                    return Err(Bad { kind: "canary", detail: format!("afterwards {} => {}", what, short(&t)) });
+                    return Err(Bad { kind: "canary", detail: format!("afterwards {} => {} (expected {})", what, short(&t), if i == 0 { "#<void>".to_string() } else { (n + 2).to_string() }) });
                 }
             }
         }
     }
     Ok(())
+}
+
+thread_local! {
+    static CANARY_LAMBDA: RefCell<Option<Cell>> = const { RefCell::new(None) };
+}
+
+fn parse_cached(text: &str) -> Cell {
+    CANARY_LAMBDA.with(|c| {
+        let mut c = c.borrow_mut();
+        if c.is_none() {
+            *c = Some(parse_one(text));
+        }
+        c.clone().unwrap()
+    })
 }
 
 /// Evaluate one form under the instruction budget and apply the oracle. `Ok(None)` = budget
@@ -325,6 +351,10 @@ fn run_call(call: &Call, fresh: bool) -> CaseResult {
 // ---- journal file: the case being executed, for the driver's watchdog -------------------------
 
 struct Journal {
+    /// the journal file mapped into memory: recording a case is a memcpy, not a system call (fifty
+    /// million `pwrite`s from sixteen processes cost more kernel time than the cases themselves);
+    /// the driver reads the file after the worker is gone, and sees the page cache
+    map: *mut u8,
     file: Option<std::fs::File>,
     path: String,
     last_len: usize,
@@ -335,34 +365,60 @@ impl Journal {
         let root = std::env::var("VERIF_ROOT").unwrap_or_else(|_| "/verif".into());
         let _ = std::fs::create_dir_all(format!("{}/replays", root));
         let path = format!("{}/replays/.cur-{}-{}.tmp", root, ctx.prop, ctx.shard);
-        let file = if ctx.strict { None } else { std::fs::File::create(&path).ok() };
-        Journal { file, path, last_len: 0 }
+        let mut j = Journal { map: std::ptr::null_mut(), file: None, path, last_len: JOURNAL_RECORD_BYTES };
+        if ctx.strict {
+            return j;
+        }
+        let file = match std::fs::OpenOptions::new().read(true).write(true).create(true).truncate(true).open(&j.path) {
+            Ok(f) => f,
+            Err(_) => return j,
+        };
+        if file.set_len(JOURNAL_RECORD_BYTES as u64).is_err() {
+            return j;
+        }
+        use std::os::unix::io::AsRawFd;
+        let p = unsafe {
+            libc::mmap(std::ptr::null_mut(), JOURNAL_RECORD_BYTES, libc::PROT_READ | libc::PROT_WRITE, libc::MAP_SHARED, file.as_raw_fd(), 0)
+        };
+        if p == libc::MAP_FAILED {
+            return j;
+        }
+        j.map = p as *mut u8;
+        j.file = Some(file);
+        j
     }
     /// Record the case; false = the driver asked to skip it (it hung or aborted before).
     fn record(&mut self, ctx: &Ctx, call: &Call) -> bool {
-        let f = match &self.file {
-            Some(f) => f,
-            None => return true,
-        };
-        let mut rec = json!({"kind": "call", "payload": call.payload()}).to_string();
-        // fixed-size record (the driver hashes the whole file text): a shorter one wipes the previous one
-        while rec.len() < JOURNAL_RECORD_BYTES.max(self.last_len.min(rec.len())) {
-            rec.push(' ');
+        if self.map.is_null() {
+            return true;
         }
-        if rec.len() > JOURNAL_RECORD_BYTES {
-            // an oversized record: make sure nothing of it is left behind by the next one
-            let _ = f.set_len(0);
-        } else if self.last_len > JOURNAL_RECORD_BYTES {
-            let _ = f.set_len(0);
+        let rec = json!({"kind": "call", "payload": call.payload()}).to_string();
+        assert!(rec.len() <= JOURNAL_RECORD_BYTES, "journal record too long: {}", rec);
+        if !ctx.skip.is_empty() {
+            // the driver hashes the whole file text
+            let mut padded = rec.clone();
+            while padded.len() < JOURNAL_RECORD_BYTES {
+                padded.push(' ');
+            }
+            if ctx.skip.contains(&fnv(padded.as_bytes())) {
+                return false;
+            }
+        }
+        unsafe {
+            std::ptr::copy_nonoverlapping(rec.as_ptr(), self.map, rec.len());
+            if self.last_len > rec.len() {
+                std::ptr::write_bytes(self.map.add(rec.len()), b' ', self.last_len - rec.len());
+            }
         }
         self.last_len = rec.len();
-        if !ctx.skip.is_empty() && ctx.skip.contains(&fnv(rec.as_bytes())) {
-            return false;
-        }
-        let _ = f.write_at(rec.as_bytes(), 0);
         true
     }
     fn close(self) {
+        if !self.map.is_null() {
+            unsafe {
+                libc::munmap(self.map as *mut libc::c_void, JOURNAL_RECORD_BYTES);
+            }
+        }
         drop(self.file);
         let _ = std::fs::remove_file(&self.path);
     }
@@ -477,6 +533,8 @@ struct Sweep<'a> {
     noreturn: NoReturn,
     counter: u64,
     executed: u64,
+    /// C06_PROFILE=1: per (procedure, arity) total microseconds, cases, slowest case
+    profile: Option<std::collections::BTreeMap<String, (u64, u64, u64, String)>>,
 }
 
 impl<'a> Sweep<'a> {
@@ -506,7 +564,18 @@ impl<'a> Sweep<'a> {
             return;
         }
         ctx.count(1);
+        let t0 = self.profile.as_ref().map(|_| std::time::Instant::now());
         let r = run_call(&call, false);
+        if let (Some(t0), Some(prof)) = (t0, self.profile.as_mut()) {
+            let e = prof.entry(format!("{}/{}", proc, args.len())).or_insert((0u64, 0u64, 0u64, String::new()));
+            let us = t0.elapsed().as_micros() as u64;
+            e.0 += us;
+            e.1 += 1;
+            if us > e.2 {
+                e.2 = us;
+                e.3 = call.text.clone();
+            }
+        }
         let grp = if proc == VALUE_PROC { "value" } else { proc_group(proc) };
         let n = args.len();
         let outcome = match (&r.fail, &r.res) {
@@ -571,12 +640,17 @@ fn domain_a(ctx: &Ctx) {
             return;
         }
     };
-    ctx.extra("procedures_swept", json!(procs.len()));
-    ctx.extra("palette_size", json!(PALETTE.len()));
+    if ctx.shard == 0 {
+        ctx.extra("procedures_swept", json!(procs.len()));
+        ctx.extra("palette_size", json!(PALETTE.len()));
+        ctx.extra("procedures", json!(procs.join(" ")));
+    }
     let sub = sub_palette();
-    ctx.extra("sub_palette_size", json!(sub.len()));
+    if ctx.shard == 0 {
+        ctx.extra("sub_palette_size", json!(sub.len()));
+    }
     let all: Vec<usize> = (0..PALETTE.len()).collect();
-    let mut sw = Sweep { ctx, journal: Journal::open(ctx), noreturn: NoReturn::load(ctx), counter: 0, executed: 0 };
+    let mut sw = Sweep { ctx, journal: Journal::open(ctx), noreturn: NoReturn::load(ctx), counter: 0, executed: 0, profile: std::env::var_os("C06_PROFILE").map(|_| Default::default()) };
 
     // every palette expression as a program of its own (also: the value of an evaluation may be circular)
     for a in &all {
@@ -589,8 +663,8 @@ fn domain_a(ctx: &Ctx) {
             sw.case(p, &[*a], true);
         }
     }
-    // arity 2: the sub-palette (quick) or the whole palette (thorough)
-    let pal2: &[usize] = if ctx.tier == Tier::Quick { &sub } else { &all };
+    // arity 2: exhaustive over the whole palette
+    let pal2: &[usize] = &all;
     for p in &procs {
         for a in pal2 {
             for b in pal2 {
@@ -620,23 +694,27 @@ fn domain_a(ctx: &Ctx) {
             }
         }
     }
-    ctx.extra("accepting_arity_3_to_5", json!(accepting.len()));
-    // thorough: arity 3 over the sub-palette, exhaustively, for the procedures that take 3 arguments
+    if ctx.shard == 0 {
+        ctx.extra("procedure_arity_pairs_accepting_3_to_5_arguments", json!(accepting.len()));
+    }
+    // thorough: arity 3 over the whole palette, exhaustively, for the procedures that take 3 arguments
     if ctx.tier == Tier::Thorough {
         for (p, n) in &accepting {
             if *n == 3 {
-                odometer(3, sub.len(), |ix| {
-                    let args: Vec<usize> = ix.iter().map(|i| sub[*i]).collect();
-                    sw.case(p, &args, true);
+                odometer(3, all.len(), |ix| {
+                    sw.case(p, ix, true);
                 });
             }
         }
     }
     // sampled: arguments aimed at the kinds the positions want (70 %) or anything (30 %)
-    let per = ctx.tier.pick(240usize, 40_000usize) / ctx.nshards.max(1) + 1;
+    let per = ctx.tier.pick(1_600usize, 100_000usize) / ctx.nshards.max(1) + 1;
     let pools = g::role_pools();
     let mut rng = g::SplitMix(ctx.sub_seed("arity3to5"));
     for (p, n) in &accepting {
+        if ctx.tier == Tier::Thorough && *n == 3 {
+            continue;
+        }
         for _ in 0..per {
             let args: Vec<usize> = (0..*n)
                 .map(|i| {
@@ -650,6 +728,13 @@ fn domain_a(ctx: &Ctx) {
                 })
                 .collect();
             sw.case(p, &args, false);
+        }
+    }
+    if let Some(prof) = &sw.profile {
+        let mut v: Vec<_> = prof.iter().collect();
+        v.sort_by_key(|(_, e)| std::cmp::Reverse(e.0));
+        for (k, e) in v.iter().take(25) {
+            eprintln!("profile {:>28} total {:>9} ms  cases {:>8}  slowest {:>8} us  {}", k, e.0 / 1000, e.1, e.2, short(&e.3));
         }
     }
     sw.journal.close();
@@ -708,6 +793,8 @@ fn run_forked<F: FnOnce() -> String>(f: F) -> Forked {
             libc::dup2(err_fds[1], 2);
             let lim = libc::rlimit { rlim_cur: limit, rlim_max: limit };
             libc::setrlimit(libc::RLIMIT_AS, &lim);
+            let cpu = libc::rlimit { rlim_cur: CHILD_CPU_S, rlim_max: CHILD_CPU_S + 1 };
+            libc::setrlimit(libc::RLIMIT_CPU, &cpu);
             libc::alarm(CHILD_ALARM_S);
             let out = f();
             let b = out.as_bytes();
@@ -731,7 +818,7 @@ fn run_forked<F: FnOnce() -> String>(f: F) -> Forked {
         libc::waitpid(pid, &mut status, 0);
         if libc::WIFSIGNALED(status) {
             let sig = libc::WTERMSIG(status);
-            if sig == libc::SIGALRM {
+            if sig == libc::SIGALRM || sig == libc::SIGXCPU || sig == libc::SIGKILL {
                 return Forked::Hang;
             }
             return Forked::Abort { signal: sig, stderr: short(&String::from_utf8_lossy(&err)) };
@@ -788,7 +875,7 @@ fn replay_call(payload: &Value) -> Outcome {
     }) {
         Forked::Hang => Outcome::fail(
             format!("{}|hang", call.noreturn_base()),
-            format!("{} did not come back within {} s (forked child, alarm)", call.text, CHILD_ALARM_S),
+            format!("{} did not come back within {} s of CPU time (forked child)", call.text, CHILD_CPU_S),
             payload.clone(),
         ),
         Forked::Abort { signal, stderr } => Outcome::fail(
@@ -841,23 +928,49 @@ fn highlight_panics(t: &str) -> bool {
 }
 
 struct EvalReport {
-    /// (stage, detail) of the first failure
-    fail: Option<(&'static str, String)>,
+    /// (stage, detail, the text of the datum at which it happened) of the first failure
+    fail: Option<(String, String, String)>,
     forms: usize,
     values: usize,
     errors: usize,
     over_budget: bool,
     compile_reached: bool,
+    /// the evaluation ran in a forked child that was killed for a reason that is not a finding
+    discard: Option<String>,
+}
+
+impl EvalReport {
+    fn new() -> EvalReport {
+        EvalReport { fail: None, forms: 0, values: 0, errors: 0, over_budget: false, compile_reached: false, discard: None }
+    }
+    fn to_json(&self) -> String {
+        json!({"fail": self.fail.as_ref().map(|(a, b, c)| json!([a, b, c])), "forms": self.forms, "values": self.values,
+               "errors": self.errors, "over_budget": self.over_budget, "compile_reached": self.compile_reached})
+        .to_string()
+    }
+    fn from_json(t: &str) -> Option<EvalReport> {
+        let v: Value = serde_json::from_str(t).ok()?;
+        let s = |x: &Value| x.as_str().unwrap_or("").to_string();
+        Some(EvalReport {
+            fail: v["fail"].as_array().map(|a| (s(&a[0]), s(&a[1]), s(&a[2]))),
+            forms: v["forms"].as_u64()? as usize,
+            values: v["values"].as_u64()? as usize,
+            errors: v["errors"].as_u64()? as usize,
+            over_budget: v["over_budget"].as_bool()?,
+            compile_reached: v["compile_reached"].as_bool()?,
+            discard: None,
+        })
+    }
 }
 
 /// Loop over the data of `text`: parse one, evaluate it under the budget (optionally in slices),
 /// continue with the remaining text. Stops at the first reader error or exhausted budget.
 fn eval_text_checked(text: &str, budget: usize, slices: Option<&[usize]>) -> EvalReport {
-    let mut rep = EvalReport { fail: None, forms: 0, values: 0, errors: 0, over_budget: false, compile_reached: false };
+    let mut rep = EvalReport::new();
     let mut slot = match fresh_or_reused() {
         Ok(s) => s,
         Err(e) => {
-            rep.fail = Some(("Vm::new", e));
+            rep.fail = Some(("Vm::new".into(), e, String::new()));
             return rep;
         }
     };
@@ -872,17 +985,18 @@ fn eval_text_checked(text: &str, budget: usize, slices: Option<&[usize]>) -> Eva
         }
         let (cell, r) = match guard(|| parse::parse_text(t)) {
             Err(p) => {
-                rep.fail = Some(("parse_text", format!("parse_text({:?}) panicked: {}", t, p)));
+                rep.fail = Some(("parse_text".into(), format!("parse_text({:?}) panicked: {}", t, p), t.to_string()));
                 break;
             }
             Ok(Err(e)) => {
                 if let Err(p) = guard(|| format!("{} {:?}", e, e)) {
-                    rep.fail = Some(("parse-error-render", format!("the error of parse_text({:?}) cannot be rendered: {}", t, p)));
+                    rep.fail = Some(("parse-error-render".into(), format!("the error of parse_text({:?}) cannot be rendered: {}", t, p), t.to_string()));
                 }
                 break;
             }
             Ok(Ok(x)) => x,
         };
+        let form_text = &t[..t.len() - r.map(|r| r.len()).unwrap_or(0)];
         rest = r;
         rep.forms += 1;
         let out = match slices {
@@ -910,7 +1024,7 @@ fn eval_text_checked(text: &str, budget: usize, slices: Option<&[usize]>) -> Eva
                     "render" => "eval-render",
                     _ => "eval-canary",
                 };
-                rep.fail = Some((stage, b.detail));
+                rep.fail = Some((stage.into(), format!("evaluating {:?}: {}", form_text, b.detail), form_text.to_string()));
                 break;
             }
         }
@@ -919,6 +1033,38 @@ fn eval_text_checked(text: &str, budget: usize, slices: Option<&[usize]>) -> Eva
         put_slot(slot);
     }
     rep
+}
+
+/// A text that defines macros can make the *expander* recurse without end (a diverging program:
+/// the mutated prelude macro `(or a b ...) => (or b a)`), which ends in a native stack overflow or
+/// in memory exhaustion instead of an exhausted instruction budget. Such texts are evaluated in a
+/// forked child; a child that stalls, overflows its stack or runs out of memory is a discarded
+/// case (termination of macro expansion is C17's subject), any other death is an abort.
+fn eval_text_guarded(text: &str, budget: usize, slices: Option<&[usize]>) -> EvalReport {
+    if !text.contains("syntax-rules") {
+        return eval_text_checked(text, budget, slices);
+    }
+    match run_forked(|| eval_text_checked(text, budget, slices).to_json()) {
+        Forked::Done(t) => EvalReport::from_json(&t).unwrap_or_else(|| {
+            let mut r = EvalReport::new();
+            r.discard = Some("macro-defining text: forked child gave no result".into());
+            r
+        }),
+        Forked::Hang => {
+            let mut r = EvalReport::new();
+            r.discard = Some("macro-defining text: forked child stalled (diverging expansion?)".into());
+            r
+        }
+        Forked::Abort { signal, stderr } => {
+            let mut r = EvalReport::new();
+            if stderr.contains("overflowed its stack") || stderr.contains("memory allocation of") || stderr.contains("out of memory") {
+                r.discard = Some("macro-defining text: forked child exhausted stack or memory (diverging expansion?)".into());
+            } else {
+                r.fail = Some(("eval-abort".into(), format!("evaluating the text killed the process (signal {}): {}", signal, stderr), text.to_string()));
+            }
+            r
+        }
+    }
 }
 
 fn fresh_or_reused() -> Result<Slot, String> {
@@ -978,12 +1124,12 @@ fn eval_sliced(slot: &mut Slot, cell: &Cell, budget: usize, slices: &[usize], ke
     }
 }
 
-fn eval_fails_like(stage: &'static str) -> impl Fn(&str) -> bool {
+fn eval_fails_like(stage: String) -> impl Fn(&str) -> bool {
     move |piece: &str| {
         SLOT.with(|s| *s.borrow_mut() = None);
-        let r = eval_text_checked(piece, 20_000, None);
+        let r = eval_text_guarded(piece, 20_000, None);
         SLOT.with(|s| *s.borrow_mut() = None);
-        matches!(r.fail, Some((st, _)) if st == stage)
+        matches!(&r.fail, Some((st, _, _)) if *st == stage)
     }
 }
 
@@ -1028,18 +1174,29 @@ fn text_check(ctx: &Ctx, kind: &str, gen_class: &str, text: &str, cursor: usize,
         return fail("highlight", rg::culprit_window(text, &highlight_panics), format!("highlight / highlight_check({:?}, {}) panicked: {}", text, cursor, p));
     }
     // parser + evaluator, datum by datum
-    let rep = eval_text_checked(text, TEXT_BUDGET, if sliced { Some(slices) } else { None });
-    if let Some((stage, detail)) = rep.fail {
-        let culprit = match stage {
-            "parse_text" => rg::culprit_window(text, &parse_panics),
+    let rep = eval_text_guarded(text, TEXT_BUDGET, if sliced { Some(slices) } else { None });
+    if let Some(why) = &rep.discard {
+        ctx.discard(why);
+        return Outcome::Discard;
+    }
+    if let Some((stage, detail, at)) = rep.fail {
+        // the culprit is looked for in the datum at which it happened, not in what precedes it
+        let at = if at.is_empty() { text.to_string() } else { at };
+        let culprit = match stage.as_str() {
+            "parse_text" | "parse-error-render" => rg::culprit_window(&at, &parse_panics),
             "Vm::new" => "-".to_string(),
-            _ => rg::culprit_window(text, &eval_fails_like(stage)),
+            _ => rg::culprit_window(&at, &eval_fails_like(stage.clone())),
         };
-        return Outcome::fail(
-            format!("C06|text|{}|{}|{}", stage, if stage.ends_with("canary") { "canary" } else if stage.ends_with("render") { "render" } else { "panic" }, culprit),
-            detail,
-            render,
-        );
+        let kind = if stage.ends_with("canary") {
+            "canary"
+        } else if stage.ends_with("render") {
+            "render"
+        } else if stage.ends_with("abort") {
+            "abort"
+        } else {
+            "panic"
+        };
+        return Outcome::fail(format!("C06|text|{}|{}|{}", stage, kind, culprit), detail, render);
     }
     if rep.over_budget {
         ctx.class("B:eval:budget-exhausted (never a failure)");
@@ -1071,6 +1228,11 @@ fn text_check(ctx: &Ctx, kind: &str, gen_class: &str, text: &str, cursor: usize,
 /// from a crash.
 fn replay_text(ctx: &Ctx, kind: &str, payload: &Value) -> Outcome {
     let bytes = unhex(payload["bytes"].as_str().unwrap_or(""));
+    if std::env::var_os("VERIF_SHOW").is_some() {
+        // `VERIF_SHOW=1 ./check --replay <file>` prints the text before running it (abort triage)
+        let mut c = Choices::new(&bytes);
+        eprintln!("text: {:?}", gen_text(kind, &mut c).0);
+    }
     let kind2 = kind.to_string();
     let out = run_forked(|| match text_outcome(ctx, &kind2, &bytes) {
         Outcome::Fail { sig, detail, .. } => json!({"sig": sig, "detail": detail}).to_string(),
@@ -1165,20 +1327,22 @@ impl Prop for C06 {
         "C06"
     }
     fn rule(&self) -> &'static str {
-        "A (structured): one call (proc arg ...) per case; proc = every global procedure of the running Vm (builtin and prelude), arguments = palette expressions (c06gen::PALETTE: every value kind and the boundary values of the statement); arity 0..1 exhaustive, arity 2 exhaustive over the sub-palette (quick) / the palette (thorough), arity 3..5 sampled with arguments aimed at the kinds the positions want (thorough adds arity 3 exhaustive over the sub-palette). Non-trivial: the call got past the arity check (its outcome is not the arity error); distinct by (procedure, argument-class tuple). B (text): a case is a generated text + cursor + slice budgets; non-trivial when a datum reached the compiler with an outcome other than an unbound variable, or the text does not scan; distinct by text."
+        "A (structured): one call (proc arg ...) per case; proc = every global procedure of the running Vm (builtin and prelude), arguments = palette expressions (c06gen::PALETTE: every value kind and the boundary values of the statement); arity 0..2 exhaustive over the palette, arity 3..5 sampled with arguments aimed at the kinds the positions want (thorough: arity 3 exhaustive over the palette for the procedures that take 3 arguments, arity 4..5 sampled). Non-trivial: the call got past the arity check (its outcome is not the arity error); distinct by (procedure, argument-class tuple). B (text): a case is a generated text + cursor + slice budgets; non-trivial when a datum reached the compiler with an outcome other than an unbound variable, or the text does not scan; distinct by text."
     }
     fn assumptions(&self) -> Vec<&'static str> {
         vec![
             "allocation sizes and exponents are bounded as in the statement: (make-vector n ..), (make-string n ..) with n <= 10^6; (expt b e) with e <= 10^6, and e <= 1000 when b is an exact integer of magnitude > 2 (bits(b) * e stays near 10^6); no other procedure takes a size",
             "circular lists and self-containing vectors go only to list?, length, equal?, display, write and are the value of an evaluation",
             "a structured call that exhausts 200000 instructions is a failure (kind budget): its arguments are small and finite, the palette's procedures terminate",
-            "cells whose no-return signature is a listed finding are not executed in the sweep; their reproducers run in the regression tier in a forked child (3 s alarm, address-space limit)",
+            "cells whose no-return signature is a listed finding are not executed in the sweep; their reproducers run in the regression tier in a forked child (2 s CPU limit, address-space limit)",
             "text domain: texts nesting deeper than 64 are discarded; evaluation is budgeted in instructions (20000 per datum), exhaustion, stalls and allocation failures are never failures there",
             "an arity error raised inside a prelude procedure counts as trivial (slight undercount of non-trivial cases)",
         ]
     }
     fn case_timeout_s(&self) -> u64 {
-        15
+        // a case takes well under a second; the margin is for a busy machine (stalls of several
+        // seconds have been seen), because a false alarm costs a restart of the whole shard
+        60
     }
     fn replay_timeout_s(&self) -> u64 {
         60
@@ -1197,8 +1361,14 @@ impl Prop for C06 {
         if ctx.shard == 0 {
             validate_palette();
         }
-        domain_a(ctx);
-        domain_b(ctx);
+        // C06_ONLY=A|B: profiling aid
+        let only = std::env::var("C06_ONLY").unwrap_or_default();
+        if only != "B" {
+            domain_a(ctx);
+        }
+        if only != "A" {
+            domain_b(ctx);
+        }
     }
     fn replay(&self, ctx: &Ctx, kind: &str, payload: &Value) -> Outcome {
         match kind {
